@@ -113,6 +113,20 @@ pub fn gen_script(rng: &mut Rng, level: usize) -> Vec<HAction> {
         .collect()
 }
 
+/// a scalar value >= U+0080 of a uniformly chosen encoded length
+pub fn random_scalar(rng: &mut Rng) -> char {
+    loop {
+        let u = match rng.below(3) {
+            0 => rng.range(0x80, 0x7ff),
+            1 => rng.range(0x800, 0xffff),
+            _ => rng.range(0x10000, 0x10ffff),
+        } as u32;
+        if let Some(c) = char::from_u32(u) {
+            return c;
+        }
+    }
+}
+
 fn csi(rng: &mut Rng, fin: u8, fancy: bool) -> Vec<u8> {
     let mut v = vec![0x1b, b'['];
     if fancy && rng.chance(15) {
@@ -294,6 +308,15 @@ pub fn gen_session(rng: &mut Rng, p: &Profile) -> (SessionCfg, Vec<Op>) {
         match rng.weighted(&weights) {
             0 => {
                 // now and then a character that also occurs inside escape sequences
+                if rng.chance(5) {
+                    // any scalar value at all (every lead and continuation octet value turns up): a character must not be
+                    // special because of the octets it is made of
+                    let c = random_scalar(rng);
+                    let mut b = [0u8; 4];
+                    let enc = c.encode_utf8(&mut b).as_bytes().to_vec();
+                    push_bytes(&mut ops, rng, &enc);
+                    continue;
+                }
                 let s = if rng.chance(7) { *rng.pick(&CSI_LOOKALIKES) } else { SIGMA[rng.weighted(&SIGMA_W)] };
                 push_bytes(&mut ops, rng, s.as_bytes());
             }
